@@ -1168,6 +1168,16 @@ expand_manifests(string &expr, bool expand_undefined,
               resume = result.size();
             }
           }
+          if (resume < result.size()) {
+            // Only a function-like macro that may still be expanded is worth
+            // a second look.  Anything else must not be scanned again:
+            // "#define false false" / "#if false" would never get past it.
+            Manifests::const_iterator ti = _manifests.find(result.substr(resume));
+            if (ti == _manifests.end() || !(*ti).second->_has_parameters ||
+                nested_ignores.count((*ti).second) != 0) {
+              resume = result.size();
+            }
+          }
           expr = expr.substr(0, q) + result + expr.substr(p);
           p = q + resume;
         }
